@@ -489,6 +489,277 @@ class _StateCMDesugar(ast.NodeTransformer):
     visit_AsyncFunctionDef = _function
 
 
+def _falsy_return(r: ast.Return) -> bool:
+    return r.value is None or (isinstance(r.value, ast.Constant) and not r.value.value)
+
+
+def _fold_exit_returns(stmts: list):
+    """Exit body without `return`: `[if c: return] + rest` -> `if c: pass / else: rest`; a trailing falsy return is
+    dropped.  None when a return remains anywhere else (or one returns something truthy)."""
+    import copy
+
+    out = list(stmts)
+    if out and isinstance(out[-1], ast.Return):
+        if not _falsy_return(out[-1]):
+            return None
+        out = out[:-1]
+    for i, st in enumerate(out):
+        if isinstance(st, ast.If) and not st.orelse and st.body and isinstance(st.body[-1], ast.Return):
+            if not _falsy_return(st.body[-1]):
+                return None
+            rest = _fold_exit_returns(out[i + 1 :])
+            head = _fold_exit_returns(st.body)
+            if rest is None or head is None:
+                return None
+            s2 = copy.copy(st)
+            s2.body = head or [ast.copy_location(ast.Pass(), st)]
+            s2.orelse = rest
+            return out[:i] + [s2]
+        if any(isinstance(n, ast.Return) for n in ast.walk(st)):
+            return None
+    return out
+
+
+class _ConstTests(ast.NodeTransformer):
+    """`<name> is None` / `is not None` with a known answer, and the boolean structure around it, folded."""
+
+    def __init__(self, known: dict) -> None:
+        self.known = known  # name -> True (is None) / False (is not None)
+
+    def visit_Compare(self, node: ast.Compare):
+        if len(node.ops) == 1 and isinstance(node.ops[0], (ast.Is, ast.IsNot)) and isinstance(node.left, ast.Name) and node.left.id in self.known and isinstance(node.comparators[0], ast.Constant) and node.comparators[0].value is None:
+            v = self.known[node.left.id]
+            return ast.copy_location(ast.Constant(value=v if isinstance(node.ops[0], ast.Is) else not v), node)
+        return self.generic_visit(node)
+
+    def visit_UnaryOp(self, node: ast.UnaryOp):
+        self.generic_visit(node)
+        if isinstance(node.op, ast.Not) and isinstance(node.operand, ast.Constant) and isinstance(node.operand.value, bool):
+            return ast.copy_location(ast.Constant(value=not node.operand.value), node)
+        return node
+
+    def visit_BoolOp(self, node: ast.BoolOp):
+        self.generic_visit(node)
+        is_and = isinstance(node.op, ast.And)
+        vals = []
+        for v in node.values:
+            if isinstance(v, ast.Constant) and isinstance(v.value, bool):
+                if v.value != is_and:
+                    return ast.copy_location(ast.Constant(value=v.value), node)  # decides the whole expression
+                continue  # neutral element
+            vals.append(v)
+        if not vals:
+            return ast.copy_location(ast.Constant(value=is_and), node)
+        if len(vals) == 1:
+            return vals[0]
+        node.values = vals
+        return node
+
+
+def _prune_const_ifs(stmts: list) -> list:
+    out = []
+    for st in stmts:
+        if isinstance(st, ast.If) and isinstance(st.test, ast.Constant) and isinstance(st.test.value, bool):
+            out.extend(_prune_const_ifs(st.body if st.test.value else st.orelse))
+            continue
+        for fld in ("body", "orelse", "finalbody"):
+            lst = getattr(st, fld, None)
+            if isinstance(lst, list) and lst and all(isinstance(x, ast.stmt) for x in lst):
+                setattr(st, fld, _prune_const_ifs(lst) or ([ast.copy_location(ast.Pass(), st)] if fld == "body" else []))
+        out.append(st)
+    return [s for s in out if not isinstance(s, ast.Pass)] or []
+
+
+def _class_cm_general(cls: ast.ClassDef):
+    """A manager class whose exit never suppresses: (exit function, self name, exit statements without returns,
+    init | None, stored field -> init parameter, helper methods, static method names) or None."""
+    meths = {n.name: n for n in cls.body if isinstance(n, (ast.FunctionDef, ast.AsyncFunctionDef))}
+    ent = meths.get("__enter__") or meths.get("__aenter__")
+    ext = meths.get("__exit__") or meths.get("__aexit__")
+    if ent is None or ext is None or isinstance(ent, ast.AsyncFunctionDef) != isinstance(ext, ast.AsyncFunctionDef):
+        return None
+    if cls.bases or cls.keywords or cls.decorator_list:
+        return None
+    eb = _strip_doc(ent.body)
+    if not all(isinstance(x, ast.Pass) or (isinstance(x, ast.Return) and (x.value is None or (isinstance(x.value, ast.Name) and x.value.id == ent.args.args[0].arg) or (isinstance(x.value, ast.Constant) and x.value.value is None))) for x in eb):
+        return None
+    params = [x.arg for x in ext.args.args]
+    if len(params) != 4 or ext.args.vararg or ext.args.kwarg:
+        return None
+    body = _fold_exit_returns(_strip_doc(ext.body))
+    if body is None:
+        return None
+    init = meths.get("__init__")
+    stored: dict = {}
+    if init is not None:
+        for st_ in _strip_doc(init.body):
+            if isinstance(st_, (ast.Assign, ast.AnnAssign)):
+                tg = st_.targets[0] if isinstance(st_, ast.Assign) else st_.target
+                if isinstance(tg, ast.Attribute) and isinstance(tg.value, ast.Name) and tg.value.id == init.args.args[0].arg and isinstance(st_.value, ast.Name):
+                    stored[tg.attr] = st_.value.id
+                    continue
+            return None
+    helpers = {}
+    static = set()
+    for nm, m in meths.items():
+        if nm in ("__enter__", "__aenter__", "__exit__", "__aexit__", "__init__"):
+            continue
+        decos = [ast.unparse(d) for d in m.decorator_list]
+        if decos == ["staticmethod"]:
+            static.add(nm)
+            continue
+        if decos or len(m.args.args) != 1 or m.args.vararg or m.args.kwarg or any(isinstance(n, ast.Return) and n.value is not None for n in ast.walk(m)) or any(isinstance(n, (ast.Yield, ast.YieldFrom)) for n in ast.walk(m)):
+            return None
+        hb = _fold_exit_returns(_strip_doc(m.body))
+        if hb is None:
+            return None
+        helpers[nm] = (m, hb)
+    return ext, params, body, init, stored, helpers, static
+
+
+class _GeneralCMDesugar(ast.NodeTransformer):
+    """`with C(args): BODY` for a manager class whose exit never suppresses (whatever it does with its arguments):
+
+        try:
+            BODY
+        except <T | BaseException> [as e]:
+            <exit body, for "an exception left the block">      (exc_type is None -> False ...)
+            raise
+        else:
+            <exit body, for "the block completed">               (exc_type is None -> True ...)
+
+    Tests of the exception arguments against None are folded in each copy, constant constructor arguments (flags) are
+    substituted, `issubclass(exc_type, T)` / `isinstance(exc_value, T)` guarding the whole exception copy becomes the
+    clause's class.  Managers the two older translations handle never get here."""
+
+    def __init__(self, tree: ast.Module) -> None:
+        self.classes = {}
+        for n in tree.body:
+            if isinstance(n, ast.ClassDef):
+                c = _class_cm_general(n)
+                if c is not None:
+                    self.classes[n.name] = c
+        self.count = 0
+
+    def _rewrite(self, node):
+        self.generic_visit(node)
+        import copy
+
+        if len(node.items) != 1 or node.items[0].optional_vars is not None:
+            return node
+        call = node.items[0].context_expr
+        if not (isinstance(call, ast.Call) and isinstance(call.func, ast.Name) and call.func.id in self.classes):
+            return node
+        ext, params, xbody, init, stored, helpers, static = self.classes[call.func.id]
+        if isinstance(ext, ast.AsyncFunctionDef) != isinstance(node, ast.AsyncWith):
+            return node
+        amap = {}
+        if init is not None:
+            amap = _bind(init, call, skip_self=True)
+            if amap is None:
+                return node
+        elif call.args or call.keywords:
+            return node
+        attrs = {attr: amap[prm] for attr, prm in stored.items() if prm in amap}
+        if len(attrs) != len(stored):
+            return node
+        if not all(isinstance(a, (ast.Name, ast.Constant)) or (isinstance(a, ast.Attribute) and isinstance(a.value, ast.Name)) for a in attrs.values()):
+            return node
+        selfn, tname, vname, tbname = params
+        cname = call.func.id
+
+        class _Inl(ast.NodeTransformer):
+            """`[await] self.helper()` statements -> the helper's body; self.static(...) -> C.static(...)"""
+
+            def __init__(s2) -> None:
+                s2.ok = True
+
+            def expand(s2, stmts: list, depth: int = 0) -> list:
+                out = []
+                for st in stmts:
+                    v = st.value if isinstance(st, ast.Expr) else None
+                    if isinstance(v, ast.Await):
+                        v = v.value
+                    if isinstance(v, ast.Call) and isinstance(v.func, ast.Attribute) and isinstance(v.func.value, ast.Name) and v.func.value.id == selfn and v.func.attr in helpers and not v.args and not v.keywords and depth < 3:
+                        m, hb = helpers[v.func.attr]
+                        if isinstance(m, ast.AsyncFunctionDef) != isinstance(st.value, ast.Await):
+                            s2.ok = False
+                        hs = m.args.args[0].arg
+                        body_ = [copy.deepcopy(b) for b in hb]
+                        if hs != selfn:
+                            body_ = [_Rename({hs: selfn}).visit(b) for b in body_]
+                        out.extend(s2.expand(body_, depth + 1))
+                        continue
+                    for fld in ("body", "orelse", "finalbody"):
+                        lst = getattr(st, fld, None)
+                        if isinstance(lst, list) and lst and all(isinstance(x, ast.stmt) for x in lst):
+                            setattr(st, fld, s2.expand(lst, depth))
+                    for h_ in getattr(st, "handlers", []) or []:
+                        h_.body = s2.expand(h_.body, depth)
+                    out.append(st)
+                return out
+
+        inl = _Inl()
+        base = inl.expand([copy.deepcopy(b) for b in xbody])
+        if not inl.ok:
+            return node
+        # what the exit body does with its exception arguments / with self
+        for b in base:
+            fine_ = {id(n.value) for n in ast.walk(b) if isinstance(n, ast.Attribute) and isinstance(n.value, ast.Name) and n.value.id == selfn and (n.attr in attrs or n.attr in static) and isinstance(n.ctx, ast.Load)}
+            for n in ast.walk(b):
+                if isinstance(n, ast.Name) and n.id == tbname:
+                    return node
+                if isinstance(n, ast.Name) and n.id == selfn and id(n) not in fine_:
+                    return node  # the manager object itself is used (stored to, handed on, a method the translation does not know)
+        self.count += 1
+        k = self.count
+        exc_name = f"__cm_exc_{k}g"
+
+        def specialise(exc: bool) -> list | None:
+            body_ = [copy.deepcopy(b) for b in base]
+            body_ = [_ConstTests({tname: not exc, vname: not exc}).visit(b) for b in body_]
+            # constructor arguments / fields; locals of the exit body renamed
+            own_locals = {n.id for b in body_ for n in ast.walk(b) if isinstance(n, ast.Name) and isinstance(n.ctx, ast.Store)}
+            ren = {nm: f"__cm{k}g_{nm}" for nm in own_locals}
+            names = {}
+            if exc:
+                names = {vname: ast.Name(id=exc_name, ctx=ast.Load()), tname: ast.Call(func=ast.Name(id="type", ctx=ast.Load()), args=[ast.Name(id=exc_name, ctx=ast.Load())], keywords=[])}
+            sub_ = _Subst(names, attrs, selfn)
+            body_ = [sub_.visit(_Rename(ren).visit(b)) for b in body_]
+            # static methods of the manager class
+            for b in body_:
+                for n in ast.walk(b):
+                    if isinstance(n, ast.Attribute) and isinstance(n.value, ast.Name) and n.value.id == selfn and n.attr in static:
+                        n.value = ast.copy_location(ast.Name(id=cname, ctx=ast.Load()), n.value)
+            body_ = [_ConstTests({}).visit(b) for b in body_]
+            body_ = _prune_const_ifs(body_)
+            for b in body_:
+                for n in ast.walk(b):
+                    if not exc and isinstance(n, ast.Name) and n.id in (tname, vname):
+                        return None
+            return body_
+
+        on_exc, on_ok = specialise(True), specialise(False)
+        if on_exc is None or on_ok is None:
+            self.count -= 1
+            return node
+        # `if issubclass(type(e), T): X` as the whole exception copy -> `except T: X; raise`
+        htype: ast.expr = ast.Name(id="BaseException", ctx=ast.Load())
+        hname = exc_name
+        if len(on_exc) == 1 and isinstance(on_exc[0], ast.If) and not on_exc[0].orelse:
+            t = on_exc[0].test
+            if isinstance(t, ast.Call) and isinstance(t.func, ast.Name) and len(t.args) == 2 and ((t.func.id == "issubclass" and ast.unparse(t.args[0]) == f"type({exc_name})") or (t.func.id == "isinstance" and ast.unparse(t.args[0]) == exc_name)):
+                htype = t.args[1]
+                on_exc = on_exc[0].body
+        uses_exc = any(isinstance(n, ast.Name) and n.id == exc_name for b in on_exc for n in ast.walk(b))
+        h = ast.ExceptHandler(type=htype, name=hname if uses_exc else None, body=on_exc + [ast.Raise(exc=None, cause=None)])
+        new = ast.Try(body=node.body, handlers=[h], orelse=on_ok, finalbody=[])
+        return _mark(new, node)
+
+    visit_With = _rewrite
+    visit_AsyncWith = _rewrite
+
+
 class _CMDesugar(ast.NodeTransformer):
     def __init__(self, tree: ast.Module) -> None:
         self.gens = {}
@@ -927,6 +1198,10 @@ def desugar(tree: ast.Module) -> ast.Module:
         if cm.gens or cm.classes:
             tree = cm.visit(tree)
             changed = changed or cm.count > 0
+        gm = _GeneralCMDesugar(tree)
+        if gm.classes:
+            tree = gm.visit(tree)
+            changed = changed or gm.count > 0
     if changed:
         ast.fix_missing_locations(tree)
     return tree
